@@ -57,7 +57,7 @@ theorem C03_unknown (sc : Scope) (fuel : Nat) (n : String) (rest : Value) (h : l
 /-- **C03_unknown_sel**: the same for an interpolation in a selector. -/
 theorem C03_unknown_sel (sc : Scope) (n : String) (rest : List STok) (h : lookup sc n = none) :
     resolveSel sc (.interp n :: rest) = .error (.unknownVar n) := by
-  simp [resolveSel, h]
+  simp [resolveSel, expand, hasRef, substOnce, h]
 
 /-- **C03_local**: evaluating a rule leaves the caller's scope exactly as it was (a definition inside
     a block is invisible outside it), and contributes no declaration to the enclosing rule. -/
@@ -95,7 +95,7 @@ example : VarOK sheet1 = true := by decide +kernel
 
 example : compile 5 sheet1 = .ok
     [ ⟨[[".r", "foo"]], [("w", ["1", "x", "1"])]⟩,
-      ⟨[[".r", "foo"], [".in", "@b"]], [("v", ["2", "2", "x"])]⟩,
+      ⟨[[".r", "foo"], [".in", "1", "x"]], [("v", ["2", "2", "x"])]⟩,
       ⟨[[".q"]], [("y", ["2"])]⟩ ] := by decide +kernel
 
 example : specCompile 5 sheet1 = compile 5 sheet1 := by decide +kernel
@@ -112,6 +112,15 @@ example : VarOK [.rule [.lit ".a"] [.decl "w" [.ref "nope"]]] = true
 example : lookup [[("a", [.lit "1"])]] "b" = none := by decide +kernel
 example : passEItem 3 [[("a", [.lit "1"])]] [] (.rule [.lit ".x"] none [.vdef "z" [.lit "9"], .decl "p" [.ref "z"]])
     = .ok ([[("a", [.lit "1"])]], [], [⟨[[".x"]], [("p", ["9"])]⟩]) := by rfl
+
+/-- an interpolation in a selector is substituted until no variable is left (`@a -> @b -> k`), as
+    in a declaration value -/
+example : resolveSel [[("b", [.lit "k"]), ("a", [.ref "b"])]] [.lit ".x-", .interp "a"]
+    = .ok [".x-", "k"] := by decide +kernel
+
+/-- a cyclic definition (`@a -> @b -> @a`) interpolated in a selector is an error, never emitted -/
+example : resolveSel [[("a", [.ref "b"]), ("b", [.ref "a"])]] [.lit ".x-", .interp "a"]
+    = .error .hang := by decide +kernel
 
 /-- `VarOK` is not superfluous: a name defined both before and after the unit that uses it (finding
     C03-toplevel-redef) is rejected by `VarOK`, and there the model and the semantics differ. -/
